@@ -1379,6 +1379,26 @@ impl Arena {
   }
 }
 
+#[cfg(rarena_verif)]
+impl Arena {
+  /// Raw view of the header and the free list.
+  #[doc(hidden)]
+  pub fn verif_snapshot(&self, max: usize) -> crate::verif::Snapshot {
+    let header = self.header();
+    let sentinel = *header.sentinel.as_inner_ref();
+    let (nodes, truncated) =
+      unsafe { crate::verif::walk(self.ptr, self.cap as usize, sentinel, max) };
+    crate::verif::Snapshot {
+      sentinel,
+      allocated: header.allocated,
+      min_segment_size: header.min_segment_size,
+      discarded: header.discarded,
+      nodes,
+      truncated,
+    }
+  }
+}
+
 impl Drop for Arena {
   fn drop(&mut self) {
     use super::sealed::RefCounter;
